@@ -275,10 +275,10 @@ pub fn endpoints(r: &mut Rng, n: usize, v6: bool) -> Vec<(Endpoint, Endpoint)> {
         }
         out.push((c, s));
     }
-    // key neighbours: one set in three has a connection whose 4-tuple is a component mix of another's (hosts
+    // key neighbours: one set in two has a connection whose 4-tuple is a component mix of another's (hosts
     // swapped with one port used on both sides, or the same hosts with one port doubled) - what a flow key built
     // with a slipped index or a half-sorted tuple would confuse with it
-    if out.len() >= 2 && r.chance(1, 3) {
+    if out.len() >= 2 && r.chance(1, 2) {
         let i = r.usize_below(out.len());
         let (c, s) = out[i];
         let ep = |ip: std::net::IpAddr, port: u16| Endpoint { ip, port };
